@@ -254,7 +254,7 @@ func (so *Sorts) typeInv(t types.Type, term string) string {
 			return fmt.Sprintf("(and (<= %s %s) (<= %s %s))", lo, term, term, hi)
 		}
 	case *types.Slice:
-		return fmt.Sprintf("(and (<= 0 (sl_arr %s)) (<= 0 (sl_off %s)) (<= 0 (sl_len %s)) (<= (sl_len %s) (sl_cap %s)) (<= (sl_cap %s) 9223372036854775807) (=> (= (sl_arr %s) 0) (= (sl_cap %s) 0)))", term, term, term, term, term, term, term, term)
+		return fmt.Sprintf("(and (<= 0 (sl_arr %s)) (<= 0 (sl_off %s)) (<= 0 (sl_len %s)) (<= (sl_len %s) (sl_cap %s)) (<= (sl_cap %s) 9223372036854775807) (=> (= (sl_arr %s) 0) (and (= (sl_cap %s) 0) (= (sl_off %s) 0))))", term, term, term, term, term, term, term, term, term)
 	case *types.Pointer, *types.Map, *types.Signature, *types.Chan:
 		return fmt.Sprintf("(<= 0 %s)", term)
 	case *types.Struct:
